@@ -61,13 +61,28 @@ def main():
             g.tterm = rng.choice([0.0, 0.25])
             g.tterm_ops = ["prev", "sprev", "once", "hist", "onceT", "histT", "next", "evT", "alwT", "ev", "alw"]
         phi = g.formula(rng.choice([1, 2, 2, 3, 3, 4]))
+        kind = rng.random()
+        if kind >= 0.75 and rng.random() < 0.5:
+            # a bounded binary or unary operator whose window begins after the current sample, on top
+            a_ = rng.choice([1, 2, 3]); b_ = a_ + rng.choice([0, 1, 2])
+            if rng.random() < 0.6:
+                phi = bi(rng.choice(["sinceT", "untilT"]), g.formula(rng.choice([0, 1])), phi if depth(phi) <= 2 else g.formula(1), a_, b_)
+            else:
+                phi = un(rng.choice(["onceT", "histT", "evT", "alwT"]), phi, a_, b_)
         vs = vars_of(phi) or ["x"]
         N = rng.choice([1, 2, 3, 4, 5, 6, 8, 12])
         w = gen_trace(rng, vs, N, S)
-        kind = rng.random()
-        ts = list(range(N)) if kind < 0.5 else sorted(rng.sample(range(0, 5 * N + 5), N))
+        ts = list(range(N)) if kind < 0.4 else sorted(rng.sample(range(0, 5 * N + 5), N))
+        kw = {}
+        if kind >= 0.75:
+            # compressed time column: quarter units, gaps of 0 .. 3/4 of a period, so the stamps cover fewer periods than there are
+            # samples (seed r9 C01-3: an early exit of the bounded since / until taken from the span of the time column)
+            kw["tS"] = 4
+            ts = [rng.choice([0, 0, 7])]
+            for _ in range(N - 1):
+                ts.append(ts[-1] + rng.choice([0, 1, 2, 3, 3]))
         fac = rng.choice(["StlDiscreteTimeSpecification", "StlDiscreteTimeOfflineSpecification"])
-        cases.append(case([dt_obj(phi, S, vs, factory=fac, tol=1)], [ev_parse(), ev_evaluate(ts, w, flt=rng.random() < 0.5)], skip=["evaluate.viol"]))
+        cases.append(case([dt_obj(phi, S, vs, factory=fac, tol=1, **kw)], [ev_parse(), ev_evaluate(ts, w, flt=rng.random() < 0.5)], skip=["evaluate.viol"]))
     traces = runner.run_cases(cases)
     vs_, gen, dist = core.validate("C01", traces)
     rep.add_traces(traces, vs_, gen, dist, nontrivial_key=lambda c: c["objs"][0]["text"] + str(c["events"][1]["w"]))
